@@ -55,6 +55,14 @@ def load_variants(only: str | None = None) -> list[dict]:
             if only and only not in ALL_PROPS:
                 continue
             out.append({"id": f"refactor-patch-{name}", "kind": "refactor", "properties": [only] if only else list(ALL_PROPS), "patch": pf, "source": "refactor-agent"})
+    # mechanical behaviour-preserving transformations (laws of the language, see equiv.py), generated from the current
+    # tree on every run: every claimed check must stay silent on each of them
+    from . import equiv
+
+    for name in equiv.TRANSFORMS:
+        if only and only not in ALL_PROPS:
+            continue
+        out.append({"id": f"equiv-{name}", "kind": "refactor", "properties": [only] if only else list(ALL_PROPS), "equiv": name, "source": "equiv"})
     # seeded changes written by independent sub-agents (kept under /verif/seeded/<id>/patch.diff)
     sd = os.path.join(HERE, "seeded")
     if os.path.isdir(sd):
@@ -90,6 +98,13 @@ def apply_variant(root: str, v: dict, dest: str) -> None:
         r = subprocess.run(["patch", "-p1", "-s", "--no-backup-if-mismatch", "-i", v["patch"]], cwd=dest, capture_output=True, text=True)
         if r.returncode != 0:
             raise RuntimeError(f"variant {v['id']}: patch does not apply to the current tree")
+    if v.get("equiv"):
+        from . import equiv
+
+        try:
+            equiv.apply(os.path.join(dest, "src"), v["equiv"])
+        except SyntaxError as err:  # the transformation itself produced invalid code: a bug of the generator
+            raise RuntimeError(f"variant {v['id']}: transformation failed: {err}") from err
     for cmd in v.get("cmds", []):
         r = subprocess.run(cmd, shell=True, cwd=dest, capture_output=True, text=True)
         if r.returncode != 0:
